@@ -62,6 +62,13 @@ def pipeline(text, W=2, S=64, unchecked=False, lint=False):
             return 'bad', f'diagnostic {type(e).__name__}({e}) cannot be rendered: {type(e2).__name__}: {e2}'
         if not isinstance(info, str) or str(e) not in info:
             return 'bad', 'rendered diagnostic does not contain the message'
+        # the position printed in the header (file:LINE:COL: message) must itself lie inside the source
+        import re as _re
+        mhead = _re.match(r'^[^\n]*?:(\d+):(\d+): ', info)
+        if mhead and src.lines:
+            ln, cl = int(mhead.group(1)), int(mhead.group(2))
+            if not (1 <= ln <= len(src.lines) and 1 <= cl <= len(src.lines[ln - 1]) + 1):
+                return 'bad', f'rendered diagnostic names position {ln}:{cl}, which is outside the source ({len(src.lines)} lines)'
         nl = len(src.lines)
         for sp in e.context:
             for cur in (sp.start, sp.end):
